@@ -332,9 +332,17 @@ func tables(reg *registry, payload []byte) (ftab, itab, ttab string) {
 	split := func(seps string) {
 		for _, t := range strings.FieldsFunc(string(payload), func(r rune) bool { return strings.ContainsRune(seps, r) }) {
 			add(t)
-			if len(t) <= 64 { // a value can follow a metric name or a closing brace directly
-				for i := 1; i < len(t); i++ {
-					add(t[i:])
+			// a value can follow a metric name or a closing brace directly
+			k := 0
+			for k < len(t) && (t[k] == '_' || t[k] == ':' || t[k] >= '0' && t[k] <= '9' || t[k] >= 'a' && t[k] <= 'z' || t[k] >= 'A' && t[k] <= 'Z') {
+				k++
+			}
+			if k > 0 && k < len(t) && !(t[0] >= '0' && t[0] <= '9') {
+				add(t[k:])
+			}
+			for i := 0; i < len(t); i++ {
+				if t[i] == '}' {
+					add(t[i+1:])
 				}
 			}
 		}
@@ -558,7 +566,15 @@ func main() {
 	for i, c := range corpus() {
 		runSet(-1-i, gen.Fork(f.Seed, 1000000+i), c, "corpus", 1)
 	}
-	n := f.Count(70, 6000)
+	// protobuf: fixed option combinations for the histogram state machine
+	for i, c := range protoCorpus() {
+		for _, o := range []opts{{KeepClassic: true}, {}, {KeepClassic: true, TypeUnit: true}, {IgnoreNH: true}} {
+			if payload, err := encode(c, fmtProto, o); err == nil {
+				emit(-100-i, c, fmtProto, o, payload, true, "corpus")
+			}
+		}
+	}
+	n := f.Count(45, 6000)
 	for i := 0; i < n; i++ {
 		r := gen.Fork(f.Seed, i)
 		fams := genFamilies(r)
